@@ -1,0 +1,6 @@
+//go:build !verif
+
+package lifecycle
+
+// verifYield is a no-op unless built with -tags verif (see verif_on.go).
+func verifYield(string) {}
